@@ -16,7 +16,7 @@ struct Cfg {
     max: bool,
     kthread: bool,
     cpu: Option<u32>,
-    idle_ms: Option<u32>,
+    idle_ms: Option<u64>,
     single: bool,
     defer: bool,
     disabled: bool,
@@ -56,7 +56,8 @@ pub fn build() {
         c.cpu = Some(tape::pick(site::BUILD, &[0u32, 3, 15, 20]));
     }
     if tape::chance(site::BUILD, 1, 5) {
-        c.idle_ms = Some(tape::pick(site::BUILD, &[0u32, 10, 1000]));
+        // Also more milliseconds than fit into the kernel's 32 bits: saturates.
+        c.idle_ms = Some(tape::pick(site::BUILD, &[0u64, 10, 1000, u32::MAX as u64, u32::MAX as u64 + 2, 1 << 32, (1u64 << 32) * 1000]));
     }
     c.single = tape::chance(site::BUILD, 1, 3);
     c.defer = tape::chance(site::BUILD, 1, 4) && ((c.single && !c.kthread) || sloppy);
@@ -141,7 +142,7 @@ pub fn build() {
             b = b.with_cpu_affinity(cpu);
         }
         if let Some(ms) = c.idle_ms {
-            b = b.with_idle_timeout(std::time::Duration::from_millis(u64::from(ms)));
+            b = b.with_idle_timeout(std::time::Duration::from_millis(ms));
         }
         if c.single {
             b = b.single_issuer();
@@ -210,8 +211,9 @@ pub fn build() {
                 }
             }
             if let Some(ms) = c.idle_ms {
-                if p.sq_thread_idle != ms {
-                    problems.push(format!("sq_thread_idle {} instead of {ms}", p.sq_thread_idle));
+                let want = ms.min(u64::from(u32::MAX)) as u32;
+                if p.sq_thread_idle != want {
+                    problems.push(format!("sq_thread_idle {} instead of {want} (requested {ms} ms)", p.sq_thread_idle));
                 }
             }
             if c.attach && other.is_some() {
@@ -355,7 +357,7 @@ pub fn build() {
                 if !report::has_violation() {
                     e.quiesce();
                 }
-                let clean = !report::has_violation();
+                let clean = !report::has_violation() && !e.stuck;
                 e.end(false, clean);
             } else {
                 alloc::a10(|| drop(ring));
